@@ -3336,7 +3336,21 @@ impl<Front: SocketHandler> ConnectionH2<Front> {
                 "IoSlice refs must be cleared before consume"
             );
             debug.push(DebugEvent::SocketIO(debug_site, global_stream_id, size));
+            // `Kawa::consume` may shift the storage (memmove to offset 0) and then
+            // re-bases the `Store::Slice`s of `kawa.out` only. After a flow-control
+            // stall or an incremental yield `kawa.blocks` still holds slices into
+            // the same storage: re-base them too, or the queued body bytes are read
+            // from stale offsets (corrupted DATA, or an out-of-range slice panic).
+            // `Buffer::shift` moves `end` left by exactly the shift amount and
+            // nothing else in `consume` touches `end`.
+            let end_before = kawa.storage.end;
             kawa.consume(size);
+            let shifted = end_before - kawa.storage.end;
+            if shifted > 0 {
+                for block in kawa.blocks.iter_mut() {
+                    block.push_left(shifted as u32);
+                }
+            }
             position.count_bytes_out_counter(size);
             position.count_bytes_out(metrics, size);
             if let Some(counter) = bytes_written.as_deref_mut() {
